@@ -35,3 +35,17 @@ claim("C01", "DESIGN.md 5/C01",
       "must equal the decode of the section's own bytes; the real parsePEL loop runs on catalogue orderings with "
       "symbolic ids of hexdump-only sections against an independent naming/numbering oracle; buildOutput is driven "
       "with symbolic names. Every harness 'Confirmed over all paths'.")
+
+claim("C05", "DESIGN.md 5/C05",
+      "parsePEL (both exit_on_error values) and the -f command-line path are executed, under python3-vt and under "
+      "python3-vt -O, on all byte strings up to 24 bytes, on every proper prefix of 5 catalogue PELs (cut offset "
+      "symbolic) and on every single-byte corruption of them (offset symbolic per window, replacement byte symbolic); "
+      "the outcome must be a rejection for prefixes / short inputs and one of {document, ordinary exception, exit "
+      "status 1 on the -f path} for corruptions, each decode under a deadline that turns a non-terminating loop into a "
+      "replayable counter-example.")
+claim("C13", "DESIGN.md 5/C13",
+      "hexdump() / parse() / printPELInHexFormat are executed with symbolic layout parameters (1..6, plus 9 concrete "
+      "layouts with symbolic data length), with a sliding window of two symbolic data bytes for the default-format "
+      "round trip, with a symbolic line address, and on renderings of the bytes in both I/O-drawer formats with "
+      "symbolic digit case, cut or padded last line and an inserted comment/blank line; oracle: one line per started "
+      "line, equal widths, offset prefix, parse(dump) == bytes. 100 cases, each 'Confirmed over all paths'.")
